@@ -175,7 +175,7 @@ func e1Scens(prop, tier string) []e1Scen {
 	depth := 4
 	shards := 2
 	if tier == "thorough" {
-		depth = 6
+		depth = 5 // 10-symbol alphabets: 10^5 words per configuration; depth 6 for alphabets of at most 6 symbols
 		shards = 16
 	}
 	for gi, g := range e1BaseGrid(tier) {
